@@ -189,7 +189,11 @@ def run(chk, repo, tier):
             b = list(bq.items)
         else:
             b = [nf.index(calls[0].result, C(i)) for i in range(4)]
-        general = [p for p in rets if not any(pol for c, pol, _ in p.conds)] or rets[-1:]
+        # the path for fields that are not all one-element fields at the origin (that one returns () / [Ellipsis])
+        def special(p_):
+            r_ = p_.ret
+            return (isinstance(r_, Tup) and len(r_) == 0) or (isinstance(r_, Tup) and len(r_) == 1 and r_.items[0] == nf.ELLIPSIS)
+        general = [p_ for p_ in rets if not special(p_)] or rets[-1:]
         p = general[-1]
         if fn == '_merge_shape':
             want = Tup([b[1] - b[0] + 1, b[3] - b[2] + 1])
